@@ -4,7 +4,8 @@ M = "menelaus.ensemble.ensemble"
 TARGETS = [("fn", M + ":StreamingEnsemble.update"), ("fn", M + ":BatchEnsemble.update"),
            ("fn", M + ":StreamingEnsemble.reset"), ("fn", M + ":BatchEnsemble.reset"),
            ("fn", M + ":BatchEnsemble.set_reference"),
-           ("fn", M + ":StreamingEnsemble.drift_states@getter"), ("fn", M + ":BatchEnsemble.drift_states@getter")]
+           ("fn", M + ":StreamingEnsemble.drift_states@getter"), ("fn", M + ":BatchEnsemble.drift_states@getter"),
+           ("fn", M + ":StreamingEnsemble.retraining_recs@getter"), ("fn", M + ":BatchEnsemble.retraining_recs@getter")]
 LEVEL = "proof"
 ASSUMPTIONS = A_COMMON + [
     "member model: a member detector is a value of an uninterpreted sort whose state lives in a store; its update / reset "
@@ -14,5 +15,8 @@ ASSUMPTIONS = A_COMMON + [
     "column selectors: defaultdict(identity) updated with the user's dict, modelled as has(key) / apply(key, X)",
     "the election object is a callable whose returned value is elect(election, member list, member states) in "
     "{None, 'warning', 'drift'} (proved for the four election classes under C13)",
-    "retraining_recs view (dict built in a loop with hasattr): decided by the bounded tier only",
+    "retraining_recs view (dict built in a loop with hasattr): loop invariant over a keyed map (has / value arrays over member "
+    "identifiers): exactly the members for which hasattr(member, 'retraining_recs') holds are keys, each maps to recs_of(member "
+    "state), nothing else is a key (kexact: recursive membership function), member states untouched; hasattr and the attribute "
+    "value are uninterpreted functions of the member / its state; the truth value of such an opaque attribute is never assumed",
 ]
